@@ -174,6 +174,22 @@ def run_unit(name, repo, workdir, with_canary=True, keep=True):
     out['cmd'] = res.get('cmd')
     out['file'] = path
     out['assumptions'] = list(u.assumptions)
+    # mechanical scan of the emitted file for everything Verus takes on trust (comments stripped)
+    code = re.sub(r'//[^\n]*', '', text)
+    scan = {
+        'external_body': len(re.findall(r'#\[verifier::external_body\]', code)),
+        'assume_specification': len(re.findall(r'\bassume_specification\b', code)),
+        'assume': len(re.findall(r'\bassume\s*\(', code)),
+        'admit': len(re.findall(r'\badmit\s*\(', code)),
+        'external_fn_specification': len(re.findall(r'external_fn_specification|#\[verifier::external\]', code)),
+    }
+    out['assumption_scan'] = scan
+    n_stub = len([f for f in u.functions if f.role == 'assumed'])
+    out['assumptions'].append('mechanical scan of the emitted file: %d external_body (%d function stubs listed above with their assumed contracts, the rest opaque D6t types / call-site stubs), '
+                              '%d assume_specification (std functions: documented behaviour), %d assume(..), %d admit()' %
+                              (scan['external_body'], n_stub, scan['assume_specification'], scan['assume'], scan['admit']))
+    if scan['assume'] or scan['admit']:
+        out['undecided'].append('the emitted file contains assume(..) / admit(): a proof must not rest on them (%s)' % scan)
     for f in u.functions:
         if f.role in ('verified', 'assumed'):
             out['functions'].append({'name': f.qual, 'where': '%s:%d' % (f.rel, f.line), 'role': f.role,
